@@ -477,6 +477,88 @@ class imath_ArgumentError(Exception):
     pass
 
 
+# ------------------------------------------------------------------ group convert
+def target_kind(name):
+    """'int' | 'f32' | 'f64' of the element scalars of array class `name`"""
+    base = name[:-5]
+    if base in ("Float",) or (base[:1] in "VC" and base.endswith("f")) or base in ("Quatf", "M22f", "M33f", "M44f", "Box2f", "Box3f", "Eulerf"):
+        return "f32"
+    if base in ("Double",) or base.endswith("d"):
+        return "f64"
+    return "int"
+
+
+def conv_canon(v, kind):
+    if isinstance(v, tuple):
+        return tuple(conv_canon(x, kind) for x in v)
+    if isinstance(v, bool) or isinstance(v, str):
+        return v
+    if kind == "int":
+        return int(v)
+    return float(v)
+
+
+def family(name):
+    import re
+    m = re.match(r"^(V\d|C\d|M\d\d|Box\d|Quat|Euler)(s|i64|i|f|d|c)Array$", name)
+    return m.group(1) if m else "num"
+
+
+def scen_convert(spec, L):
+    """T(S array): element i of the result is T(element i of the source) - for plain, masked and read-only sources"""
+    ks = list(range(L))
+    kind = target_kind(spec.name)
+    n_ok = 0
+    for src_spec in SPECS:
+        if src_spec is spec or src_spec.kind == "str" or spec.kind == "str" or family(src_spec.name) != family(spec.name) or family(spec.name) == "Euler":
+            continue          # (QuatfArray(EulerfArray) etc. are semantic conversions, not element casts; Euler<float>(Euler<double>) goes
+                              #  through Vec3 and resets the order to XYZ - a C++ core matter outside this property, see DESIGN.md)
+        try:
+            spec.cls(src_spec.array([1]))
+        except Exception:
+            continue          # no such converting constructor
+        n_ok += 1
+        R.cls("conversion_pairs")
+        srcmodel = src_spec.model(ks)
+        for variant in ("plain", "masked", "readonly", "masked_sparse"):
+            src = src_spec.array(ks)
+            want_src = srcmodel
+            if variant == "masked":
+                src = src_spec.array(ks + [90, 91])[int_array([1] * L + [0, 0])]
+            elif variant == "masked_sparse":
+                big = [k for k in range(2 * L + 1)]
+                mv = [i % 2 for i in range(2 * L + 1)]
+                src = src_spec.array(big)[int_array(mv)]
+                want_src = [m for m, f in zip(src_spec.model(big), mv) if f]
+            elif variant == "readonly":
+                src.makeReadOnly()
+            R.ev()
+            R.nontrivial(hash((spec.name, src_spec.name, L, variant)))
+            try:
+                res = spec.cls(src)
+            except Exception as e:
+                R.fail("convert:%s:raised" % spec.name, src=src_spec.name, L=L, variant=variant, exc=repr(e))
+                continue
+            want = [conv_canon(v, kind) for v in want_src]
+            got = None
+            try:
+                got = arr_list(res)
+            except Exception as e:
+                R.fail("convert:%s:result_unreadable" % spec.name, src=src_spec.name, L=L, variant=variant, exc=repr(e))
+                continue
+            if len(res) != len(want) or not same(tuple(got), tuple(want)):
+                R.fail("convert:%s:wrong_elements:%s_source" % (spec.name, variant.split("_")[0]), src=src_spec.name, L=L, variant=variant, got=got[:6], want=want[:6], got_len=len(res))
+                continue
+            # the result is an independent, writable, dense array
+            if len(res):
+                res[0] = spec.mk(77)
+                if not same(tuple(arr_list(src)), tuple(want_src)):
+                    R.fail("convert:%s:result_aliases_source" % spec.name, src=src_spec.name, L=L, variant=variant)
+                if res.writable() is False:
+                    R.fail("convert:%s:result_not_writable" % spec.name, src=src_spec.name, L=L, variant=variant)
+    R.sample("convert:%s" % spec.name, dict(cls=spec.name, L=L, sources=n_ok))
+
+
 SCEN = []
 for spec in SPECS:
     for L in range(0, LMAX + 1):
@@ -484,8 +566,10 @@ for spec in SPECS:
         SCEN.append(("mask", spec, L))
     for L in (0, 1, 3, 5):
         SCEN.append(("readonly", spec, L))
+    for L in (0, 1, 4):
+        SCEN.append(("convert", spec, L))
 
-FUN = dict(index=scen_index, mask=scen_mask, readonly=scen_readonly)
+FUN = dict(index=scen_index, mask=scen_mask, readonly=scen_readonly, convert=scen_convert)
 for n, (g, spec, L) in enumerate(SCEN):
     name = "%s:%s:L%d" % (g, spec.name, L)
     if a.group and g != a.group:
